@@ -32,7 +32,7 @@ def arc_graph(rng, k, density=None, forbid3=False):
     Returns accessor or None when nothing is left."""
     n = 4 ** k
     if density is None:
-        density = rng.choice([0.35, 0.5, 0.65, 0.8, 0.95])
+        density = rng.choice([0.27, 0.35, 0.5, 0.65, 0.8, 0.95])   # 0.27: thin graphs, long chains of out-degree-1 vertices
     acc = -np.ones((n, 4), dtype=int)
     for v in range(n):
         for j in range(4):
